@@ -25,6 +25,10 @@ class Unserializable(object):
     def __hash__(self):
         return 7
 
+    def __getstate__(self):         # what makes the REAL jsonpickle fail on it (a TypeError would be swallowed as null)
+        import pickle
+        raise pickle.PicklingError('not serializable')
+
 
 def reset():
     _TABLE.clear()
